@@ -74,6 +74,11 @@ CLAIMED = {
         text="Lean theorems: Python str / literal_eval round trip for every int, None, list and tuple of ints (the metadata strings), flatten→unflatten identity for QBytes, Packed and QBits serial forms under any prefix, leaf types (only tensors and strings), module-level save→load identity including the choice of the weight class from weight_qtype. "
              "Real serializers (pickle, weights_only, safetensors) on real models: key sets and meta strings vs the model, every leaf bit for bit, qtypes, outputs bit-identical on same/default/requantize targets, re-saved dict equal.",
         design="6/C10", technique="Lean 4 proof of print/parse and flatten/unflatten round trips + differential correspondence with real serializers"),
+    "C11": dict(
+        text="Lean theorems: the explicit backward of the quantized linear is the adjoint of its bilinear forward for every batch size and feature sizes (so it equals the float backward at the dequantized operands), the bias gradient is the sum over the flattened leading positions, quantizer and dequantizer contribute the identity, "
+             "and — from the weight state machine — every forward of an unfrozen module uses the quantization of the current float version after any sequence of optimizer steps, a frozen one never changes. "
+             "Real autograd on QLinear/QConv2d (all weight qtypes, activations, ranks 2-4) against the float module at the dequantized weight and (de)quantized input: bit-exact on exact-arithmetic operand sets, rounding-level otherwise; frozen weights and scales receive no gradient.",
+        design="6/C11", technique="Lean 4 proof (adjoint identity over rationals, state machine) + torch-autograd differential check"),
 }
 
 NOT_YET = "check not yet built in this round (build in progress; see DESIGN.md build order)"
